@@ -790,7 +790,12 @@ class Ev:
                 if i < len(names):
                     fields[names[i]] = self.ev(a, env, module)
             for k, v in kws.items():
-                fields[k] = self.ev(v, env, module)
+                try:
+                    fields[k] = self.ev(v, env, module)
+                except Unsupported as ex:
+                    if not getattr(self, "opaque_fields", False):
+                        raise
+                    fields[k] = Sym(f"<opaque:{norm_text(v)[:40]}>")
             return Obj(ci.name, fields)
         if q and q.startswith("datetime."):
             return Obj(q, {k: self.ev(v, env, module) for k, v in kws.items()})
@@ -804,9 +809,10 @@ class Ev:
             raise Unsupported("helper recursion too deep")
         try:
             params = [a.arg for a in fn.args.args]
+            env = {}
             if skip_self and params and params[0] == "self":
                 params = params[1:]
-            env = {}
+                env["self"] = Sym("self")
             for p, v in zip(params, args):
                 env[p] = v
             for k, v in kwargs.items():
